@@ -67,7 +67,7 @@ end combinators
 
 /-- leaf-wise case analysis: split every `if` / `match` left, normalise, close -/
 local macro "tie_split" : tactic =>
-  `(tactic| (repeat' (first | split | (intro _))) <;> simp_all)
+  `(tactic| try ((repeat' (first | split | (intro _))) <;> simp_all))
 
 section
 variable {α : Type} [LE α] [LT α] [DecidableLE α] [DecidableLT α] [BEq α]
@@ -242,5 +242,175 @@ theorem mloop_spec (rnd : Nat → α) (stop factor jitter : α) (lim : Option Na
           rw [e, v0]
           simp [backoff_iter.loop2, limArg, hlt, e2]
 
+/-! ## 4. the tie -/
+
+theorem valsFrom_len (factor stop jitter : α) (r : Nat → α) (n i : Nat) (cur : α) :
+    (valsFrom factor stop jitter r n i cur).length = n := by
+  induction n generalizing i cur with
+  | zero => rfl
+  | succ k ih => simp [valsFrom, ih]
+
+theorem valsFrom_take (factor stop jitter : α) (r : Nat → α) (n k i : Nat) (cur : α) :
+    (valsFrom factor stop jitter r n i cur).take k = valsFrom factor stop jitter r (min n k) i cur := by
+  induction n generalizing i cur k with
+  | zero => simp [valsFrom]
+  | succ n ih =>
+    cases k with
+    | zero => simp [valsFrom]
+    | succ k =>
+      have e : min (n + 1) (k + 1) = min n k + 1 := by omega
+      rw [e]; simp [valsFrom, ih]
+
+omit [LE α] [LT α] [DecidableLE α] [DecidableLT α] [BEq α] [Mul α] [Sub α] [Neg α] [OfNat α 0] [OfNat α 1] in
+/-- a computation followed by code that only returns -/
+theorem bind_ret_tail {β γ : Type} (m : G α β) (f : β → G α γ) (s : GSt)
+    (hf : ∀ v s1, f v s1 = .stop [] .returned) :
+    G.bind m f s = .stop (m s).out ((m s).how.getD .returned) := by
+  simp only [g_bind]
+  cases m s <;> simp [hf]
+
+omit [LE α] [LT α] [DecidableLE α] [DecidableLT α] [BEq α] [Mul α] [Sub α] [Neg α] [OfNat α 0] [OfNat α 1] in
+theorem res_of_out_how {β : Type} (r : Res α β) (o : List α) (w : Option Stop) (h1 : r.out = o) (h2 : r.how = w) :
+    (w = none → ∃ v s1, r = .cont o v s1) ∧ (∀ h, w = some h → r = .stop o h) := by
+  cases r <;> simp [Res.out, Res.how] at h1 h2 <;> subst h1 h2 <;> simp
+
+/-- the main loop as an equation: `L + 1` values are asked for at position 0 -/
+theorem mloop_res (rnd : Nat → α) (stop factor jitter : α) (lim : Option Nat) (fuel L : Nat) (cr : Option α) (cur : α)
+    (hf : L + 1 ≤ fuel) :
+    (rem lim 0 L ≤ L → ∃ v s1, backoff_iter.loop2 rnd stop (limArg lim) factor jitter fuel cr 0 cur ⟨L + 1, 0⟩
+        = .cont (valsFrom factor stop jitter rnd (rem lim 0 L) 0 cur) v s1) ∧
+    (¬ rem lim 0 L ≤ L → backoff_iter.loop2 rnd stop (limArg lim) factor jitter fuel cr 0 cur ⟨L + 1, 0⟩
+        = .stop (valsFrom factor stop jitter rnd (L + 1) 0 cur) .suspended) := by
+  have hm := mloop_spec rnd stop factor jitter lim fuel L 0 cr cur 0 hf (Or.inr rfl)
+  simp only [Int.natCast_zero] at hm
+  have hr := res_of_out_how _ _ _ hm.1 hm.2
+  constructor
+  · intro hle
+    have e : min (rem lim 0 L) (L + 1) = rem lim 0 L := by omega
+    rw [e] at hr
+    exact hr.1 (by simp [hle])
+  · intro hle
+    have e : min (rem lim 0 L) (L + 1) = L + 1 := by omega
+    rw [e] at hr
+    exact hr.2 _ (by simp [hle])
+
+/-- what the caller has seen when the body has run -/
+def _root_.PyRtC15.Res.fin {β : Type} : Res α β → List α × Stop
+  | .cont o _ _ => (o, .returned)
+  | .stop o h => (o, h)
+
+omit [LE α] [LT α] [DecidableLE α] [DecidableLT α] [BEq α] [Mul α] [Sub α] [Neg α] [OfNat α 0] [OfNat α 1] in
+theorem run_succ (k : Nat) (body : G α Unit) : G.run (k + 1) body = (body ⟨k + 1, 0⟩).fin := by
+  simp only [G.run, Res.fin]
+  split <;> simp_all
+omit [LE α] [LT α] [DecidableLE α] [DecidableLT α] [BEq α] [Mul α] [Sub α] [Neg α] [OfNat α 0] [OfNat α 1] in
+@[simp] theorem fin_cont {β : Type} (o : List α) (v : β) (s : GSt) : (Res.cont o v s).fin = (o, .returned) := rfl
+omit [LE α] [LT α] [DecidableLE α] [DecidableLT α] [BEq α] [Mul α] [Sub α] [Neg α] [OfNat α 0] [OfNat α 1] in
+@[simp] theorem fin_stop {β : Type} (o : List α) (h : Stop) : (Res.stop o h : Res α β).fin = (o, h) := rfl
+omit [LE α] [LT α] [DecidableLE α] [DecidableLT α] [BEq α] [Mul α] [Sub α] [Neg α] [OfNat α 0] [OfNat α 1] in
+@[simp] theorem fin_ite {β : Type} (c : Prop) [Decidable c] (a b : Res α β) :
+    (if c then a else b).fin = if c then a.fin else b.fin := by split <;> rfl
+
+/-- the model's outcome as `n` calls of `next()` show it -/
+def view (n : Nat) (o : Outcome α) : List α × Stop := shown (pullObj (Obj.ofOutcome o) n).2
+
+omit [LE α] [LT α] [DecidableLE α] [DecidableLT α] [BEq α] [Mul α] [Sub α] [Neg α] [OfNat α 0] [OfNat α 1] in
+@[simp] theorem view_valueError (k : Nat) : view (k + 1) (Outcome.valueError : Outcome α) = ([], .raised .ValueError) := rfl
+omit [LE α] [LT α] [DecidableLE α] [DecidableLT α] [BEq α] [Mul α] [Sub α] [Neg α] [OfNat α 0] [OfNat α 1] in
+@[simp] theorem view_fuelOut (k : Nat) : view (k + 1) (Outcome.fuelOut : Outcome α) = ([], .outOfFuel) := rfl
+omit [LE α] [LT α] [DecidableLE α] [DecidableLT α] [BEq α] [Mul α] [Sub α] [Neg α] [OfNat α 0] [OfNat α 1] in
+@[simp] theorem view_finite (n : Nat) (vals : List α) :
+    view n (.finite vals) = (vals.take n, if vals.length < n then .returned else .suspended) := by
+  simp only [view, Obj.ofOutcome, pullObj]
+  by_cases h : vals.length < n <;> simp [h, shown]
+omit [LE α] [LT α] [DecidableLE α] [DecidableLT α] [BEq α] [Mul α] [Sub α] [Neg α] [OfNat α 0] [OfNat α 1] in
+@[simp] theorem view_endless (n : Nat) (val : Nat → α) :
+    view n (.endless val) = ((List.range n).map val, .suspended) := by
+  simp [view, Obj.ofOutcome, pullObj, shown]
+omit [LE α] [LT α] [DecidableLE α] [DecidableLT α] [BEq α] [Mul α] [Sub α] [Neg α] [OfNat α 0] [OfNat α 1] in
+@[simp] theorem view_ite (n : Nat) (c : Prop) [Decidable c] (a b : Outcome α) :
+    view n (if c then a else b) = if c then view n a else view n b := by split <;> rfl
+
+set_option maxHeartbeats 2000000 in
+theorem src_backoff_iter_eq_model (fuel n : Nat) (r : Nat → α) (p : Params α) (h : n ≤ fuel) :
+    Src.iterutils.backoff_iter fuel n r p.start p.stop (countArg p.count) p.factor p.jitter
+      = shown (pullObj (Obj.ofOutcome (backoffIter fuel r p)) n).2 := by
+  cases n with
+  | zero => cases hb : backoffIter fuel r p <;> simp [backoff_iter, G.run, shown, pullObj, Obj.ofOutcome]
+  | succ L =>
+    show _ = view (L + 1) (backoffIter fuel r p)
+    obtain ⟨start, stop, factor, count, jitter⟩ := p
+    have hd := dloop_spec r stop factor fuel 1 start
+    simp only [Int.cast_ofNat_Int, Int.natCast_one] at hd
+    have hm := fun lim => mloop_res r stop factor jitter lim fuel L none start h
+    have fin_case : ∀ m : Nat, (m ≤ L → ∃ v s1,
+          backoff_iter.loop2 r stop (CountV.int ↑m) factor jitter fuel none 0 start ⟨L + 1, 0⟩ =
+            Res.cont (valsFrom factor stop jitter r (min m (L + 1)) 0 start) v s1) ∧
+        (¬ m ≤ L → backoff_iter.loop2 r stop (CountV.int ↑m) factor jitter fuel none 0 start ⟨L + 1, 0⟩ =
+            Res.stop (valsFrom factor stop jitter r (min m (L + 1)) 0 start) Stop.suspended) := by
+      intro m
+      have hmm := hm (some m)
+      simp only [rem, limArg, Nat.sub_zero] at hmm
+      constructor
+      · intro hr; rw [show min m (L + 1) = m by omega]; exact hmm.1 hr
+      · intro hr; rw [show min m (L + 1) = L + 1 by omega]; exact hmm.2 hr
+    cases count with
+    | dflt =>
+      cases hdc : defaultCount factor stop fuel start 1 with
+      | count m =>
+        have e3 : ¬ ((m : Int) < 0) := by omega
+        by_cases hr : m ≤ L
+        · obtain ⟨v, s1, hl⟩ := (fin_case m).1 hr
+          have e2 : m < L + 1 := by omega
+          simp [backoff_iter, run_succ, countArg, backoffIter, rangeBad, resolveCount, jitterBad, hd, hdc,
+            PyRtC15.float, hl, e3, valsFrom_take, valsFrom_len, e2]
+          tie_split
+        · have hl := (fin_case m).2 hr
+          have e2 : ¬ (m < L + 1) := by omega
+          simp [backoff_iter, run_succ, countArg, backoffIter, rangeBad, resolveCount, jitterBad, hd, hdc,
+            PyRtC15.float, hl, e3, valsFrom_take, valsFrom_len, e2]
+          tie_split
+      | noProgress =>
+        simp [backoff_iter, run_succ, countArg, backoffIter, rangeBad, resolveCount, jitterBad, hd, hdc, PyRtC15.float]
+        tie_split
+      | fuelOut =>
+        simp [backoff_iter, run_succ, countArg, backoffIter, rangeBad, resolveCount, jitterBad, hd, hdc, PyRtC15.float]
+        tie_split
+    | rep =>
+      have hl := (hm none).2 (by simp [rem])
+      simp only [limArg] at hl
+      have e := valsFrom_map factor stop jitter r (L + 1) 0 start
+      simp only [Nat.zero_add] at e
+      simp [backoff_iter, run_succ, countArg, backoffIter, rangeBad, resolveCount, jitterBad, PyRtC15.float, hl, e]
+      tie_split
+    | num k =>
+      by_cases hk : k < 0
+      · simp [backoff_iter, run_succ, countArg, backoffIter, rangeBad, resolveCount, jitterBad, PyRtC15.float, hk]
+        tie_split
+      · obtain ⟨m, rfl⟩ := Int.eq_ofNat_of_zero_le (Int.not_lt.mp hk)
+        by_cases hr : m ≤ L
+        · obtain ⟨v, s1, hl⟩ := (fin_case m).1 hr
+          have e2 : m < L + 1 := by omega
+          simp [backoff_iter, run_succ, countArg, backoffIter, rangeBad, resolveCount, jitterBad,
+            PyRtC15.float, hl, hk, valsFrom_take, valsFrom_len, e2]
+          tie_split
+        · have hl := (fin_case m).2 hr
+          have e2 : ¬ (m < L + 1) := by omega
+          simp [backoff_iter, run_succ, countArg, backoffIter, rangeBad, resolveCount, jitterBad,
+            PyRtC15.float, hl, hk, valsFrom_take, valsFrom_len, e2]
+          tie_split
+
 end
+
+/-! non-vacuity: the hypothesis `n ≤ fuel` is satisfiable and both sides are the doc-test values at `α = Int`
+    (`list(backoff_iter(1, 10))`, six calls of `next()`; three calls on `count='repeat'`; a refused call) -/
+example : (6 : Nat) ≤ 10 ∧
+    Src.iterutils.backoff_iter (α := Int) 10 6 (fun _ => 0) 1 10 (countArg .dflt) 2 0 = ([1, 2, 4, 8, 10], .returned) ∧
+    shown (pullObj (Obj.ofOutcome (backoffIter (α := Int) 10 (fun _ => 0) ⟨1, 10, 2, .dflt, 0⟩)) 6).2
+      = ([1, 2, 4, 8, 10], .returned) := by decide
+example : Src.iterutils.backoff_iter (α := Int) 10 3 (fun _ => 0) 0 5 (countArg .rep) 3 0 = ([0, 1, 3], .suspended) ∧
+    Src.iterutils.backoff_iter (α := Int) 10 3 (fun _ => 0) 7 5 (countArg (.num 2)) 3 0 = ([], .raised .ValueError) ∧
+    Src.iterutils.backoff_iter (α := Int) 10 3 (fun i => i) 4 9 (countArg (.num 2)) 2 1 = ([4, 0], .returned) := by
+  decide
+
 end C15
